@@ -53,7 +53,7 @@ func init() {
 func TestBatcherAtProcessorPoints(t *testing.T) {
 	sec := vk.Sec("BatcherAtProcessorPoints")
 	idx := 0
-	for _, point := range []string{"loop.peeked", "loop.beforeTimer", "loop.timerFired", "execute.popped"} {
+	for _, point := range []string{"loop.peeked", "loop.beforeTimer", "loop.timerFired", "execute.popped", "loop.empty"} {
 		for _, mean := range []string{"close", "close2", "batch-same", "batch-other", "subscribe", "leave", "batch-same+close", "leave+close"} {
 			for _, nsubs := range []int{1, 3} {
 				idx++
@@ -162,7 +162,7 @@ func runBatcherPoint(t *testing.T, name, point, mean string, nsubs int) error {
 			errs.Failf("harness: the loop never reached %s", point)
 			return
 		}
-		due100 := point == "loop.timerFired" || point == "execute.popped" // the value was due when the loop parked
+		due100 := point == "loop.timerFired" || point == "execute.popped" || point == "loop.empty" // the value was due when the loop parked (at loop.empty it has been delivered: the loop found nothing more to do and is on its way out)
 		// meanwhile
 		var calls sync.WaitGroup
 		closes := 0
